@@ -476,6 +476,12 @@ class ApplyLinks(Processor):
                                              node_match=_res_match,
                                              edge_match=_linktype_match)
             raw_matches = GM.subgraph_isomorphisms_iter()
+            # apply the matches in the order of the residues they involve, so that
+            # the result does not depend on how the residue graph is stored
+            raw_matches = sorted(raw_matches,
+                                 key=lambda match: sorted((meta_molecule.nodes[node]["resid"],
+                                                           str(res_link.nodes[match[node]]["order"]))
+                                                          for node in match))
             for match in raw_matches:
                 nodes = match.keys()
                 resids =[meta_molecule.nodes[node]["resid"] for node in nodes]
